@@ -59,6 +59,11 @@ class Report:
         self.extra = {}
         self.violations = 0
         self.known = [k for k in load_known()["findings"] if k["property"] == pid]
+        d = os.path.join(ROOT, "replays", pid)
+        if os.path.isdir(d):                 # replay files of earlier runs
+            for f in os.listdir(d):
+                if f.endswith(".json"):
+                    os.unlink(os.path.join(d, f))
         self._names = set()
 
     # ------------------------------------------------------------------
